@@ -927,6 +927,11 @@ def pretty_print_merge_decision(base, decision, config=DefaultConfig):
         if diff:
             config.out.write("%s%s%s:%s\n" % (
                 config.INFO.replace("##", "---"), dkey, note, config.RESET))
+            if dkey == "similar_insert":
+                # This diff is relative to the locally inserted item, not to base
+                pretty_print_diff(
+                    decision.local_diff[0].valuelist[0], diff[0].diff, path, config)
+                continue
             value = base
             for i, k in enumerate(decision.common_path):
                 if isinstance(value, str):
